@@ -152,7 +152,11 @@ def run(ctx):
     ev = 0
     hist = {}
     for k in range(nstruct):
-        st = gs.gen_structure(rng, name=rng.choice(['P-1', 'P-1', 'P1']) if k % 6 == 5 else None)
+        # every sixth structure starts with an atom on exact quarters in a centrosymmetric triclinic or monoclinic cell (differences of exactly -1.5)
+        if k % 6 == 2:
+            st = gs.gen_structure(rng, name=rng.choice([g for g in ('P-1', 'P21/c', 'C2/c') if g in gs.sg.TABLE]), force_mode='on_quarter')
+        else:
+            st = gs.gen_structure(rng, name=rng.choice(['P-1', 'P-1', 'P1']) if k % 6 == 5 else None)
         hist[st['name']] = hist.get(st['name'], 0) + 1
         try:
             ob = sc.observe(st)
